@@ -191,6 +191,13 @@ def name_labels(name, lookup, canon):
 def check_raw(p, lookup, text):
     """get_header is case-insensitive and returns the value as sent."""
     p.expect('get_header(%r)' % lookup, lambda: p.req.get_header(lookup), text)
+    if text is None:
+        # documented: a missing header with required=True answers HTTPBadRequest (HTTPMissingHeader)
+        p.expect_4xx('get_header(%r, required=True)' % lookup, lambda: p.req.get_header(lookup, required=True))
+        p.expect('get_header(%r, default=...)' % lookup, lambda: p.req.get_header(lookup, default='dflt'), 'dflt')
+    else:
+        p.expect('get_header(%r, required=True)' % lookup, lambda: p.req.get_header(lookup, required=True), text)
+        p.expect('get_header(%r, default=...)' % lookup, lambda: p.req.get_header(lookup, default='dflt'), text)
     p.expect('headers_lower.get(%r)' % lookup.lower(), lambda: p.req.headers_lower.get(lookup.lower()), text)
 
 
@@ -449,6 +456,48 @@ class ETags(Suite):
         if case['if_match'] is not None and case['if_none_match'] is not None:
             lb.add('etag:both_headers')
         return Info(nt, sorted(lb))
+
+
+class RepeatedLines(Suite):
+    """List-valued headers sent as SEVERAL field lines (RFC 9110 5.3: equivalent to one comma-joined line): If-Match /
+    If-None-Match entity-tag lists and Accept split over 2-3 lines with differently cased names; the ASGI request gets
+    the separate lines, the WSGI request the line a server would have joined.  The accessors must read the combined list."""
+
+    name = 'repeated_lines'
+    budget = {'quick': 1500, 'thorough': 40000}
+
+    def strategy(self, tier):
+        ev = g.etag_values().filter(lambda v: isinstance(v['expect'], list))
+        return st.builds(
+            lambda which, vals, names, acc: {'which': which, 'values': vals, 'names': names, 'accept': acc},
+            st.sampled_from(['if_match', 'if_none_match']), st.lists(ev, min_size=2, max_size=3),
+            st.lists(st.sampled_from(['If-Match', 'if-match', 'IF-MATCH', 'If-match']), min_size=3, max_size=3),
+            st.lists(st.sampled_from(['text/html', 'application/json;q=0.5', 'image/png;q=0', 'application/xml']),
+                     min_size=2, max_size=3, unique=True))
+
+    def run(self, case):
+        canon = 'If-Match' if case['which'] == 'if_match' else 'If-None-Match'
+        headers = []
+        expect = []
+        for i, v in enumerate(case['values']):
+            name = case['names'][i]
+            if canon == 'If-None-Match':
+                name = {'If-Match': 'If-None-Match', 'if-match': 'if-none-match', 'IF-MATCH': 'IF-NONE-MATCH',
+                        'If-match': 'If-none-match'}[name]
+            headers.append((name, v['text']))
+            expect.extend(_etag_expect(v))
+        for i, a in enumerate(case['accept']):
+            headers.append((('Accept', 'accept', 'ACCEPT')[i % 3], a))
+        table = {}
+        for a in case['accept']:
+            r, _, q = a.partition(';q=')
+            table[r] = float(q) if q else 1.0
+        for p in make_probes(headers):
+            req = p.req
+            p.expect(case['which'], lambda: getattr(req, case['which']), expect)
+            for mt in ('text/html', 'application/json', 'image/png', 'application/xml', 'text/plain'):
+                p.expect('client_accepts(%r)' % mt, lambda mt=mt: req.client_accepts(mt), table.get(mt, 0.0) > 0)
+        return Info(True, ['lines:%d' % len(case['values']), case['which']])
 
 
 # ======================================================================== cookies
@@ -1023,5 +1072,5 @@ class FuzzTotality(Suite):
         return Info(n4 > 0 or len(headers) > 1, ['hdr:' + h[0] for h in headers] + (['some_accessor_answers_4xx'] if n4 else []))
 
 
-SUITES = [ContentLength(), Range(), Dates(), ETags(), Cookies(), ForwardedSuite(), HostUrl(), Accept(), RoundTrip(), FuzzTotality()]
+SUITES = [ContentLength(), Range(), Dates(), ETags(), RepeatedLines(), Cookies(), ForwardedSuite(), HostUrl(), Accept(), RoundTrip(), FuzzTotality()]
 KNOWN = {}
